@@ -113,4 +113,51 @@ Proof.
   - rewrite nth_overflow by (rewrite map_length; exact Hi). lra.
 Qed.
 
+(* ---- histories: the log-weights telescope ------------------------------------- *)
+(* increment of log-weight i contributed by step s taken from state st *)
+Definition step_incr (st : fstate O n) (s : step_in O n) (i : nat) : R :=
+  let st' := gpf_step st s in
+  let gC := si_gc s (gm_of (fs_pred st')) (gm_of (fs_corr st)) in
+  let xs := gpf_drawn (si_gc s) (si_zs s) (fs_pred st') (fs_corr st) in
+  gpf_weight C08_ROps 0 (nth i (fs_lik st') 0)
+             (nth i (si_trans s (map pstate (fs_pred st')) xs) 0)
+             (density (O:=O) (nth i xs (mzero n 1)) (gmean (belief_at gC i)) (gcov (belief_at gC i))).
+
+Fixpoint incr_sum (st : fstate O n) (h : list (step_in O n)) (i : nat) : R :=
+  match h with
+  | [] => 0
+  | s :: h' => step_incr st s i + incr_sum (gpf_step st s) h' i
+  end.
+
+Fixpoint all_valid (st : fstate O n) (h : list (step_in O n)) : Prop :=
+  match h with
+  | [] => True
+  | s :: h' => fs_valid (gpf_step st s) = true /\ all_valid (gpf_step st s) h'
+  end.
+
+Lemma gpf_weight_split (lw l t q : R) :
+  gpf_weight C08_ROps lw l t q = lw + gpf_weight C08_ROps 0 l t q.
+Proof. rewrite !gpf_weight_R. lra. Qed.
+
+Lemma weights_telescope (N : nat) (h : list (step_in O n)) : forall (st : fstate O n) (i : nat),
+  length (fs_pred st) = N -> length (fs_corr st) = N ->
+  Forall (fun s => shape_ok O n (si_gp s) /\ shape_ok O n (si_gc s)) h ->
+  all_valid st h -> (i < N)%nat ->
+  plw (nth i (fs_corr (gpf_run st h)) (dparticle O n)) =
+  plw (nth i (fs_corr st) (dparticle O n)) + incr_sum st h i.
+Proof.
+  induction h as [|s h IH]; intros st i Lp Lc HF Hv Hi.
+  - cbn. lra.
+  - apply Forall_cons_iff in HF. destruct HF as [[Sp Sc] HF']. destruct Hv as [Hv1 Hv].
+    pose proof (gpf_step_formulae O n N st s Lp Lc Sp Sc) as SF.
+    destruct SF as (L1 & L2 & _ & Hw & _ & _ & _ & Hval).
+    destruct (Hval Hv1) as (_ & _ & Hall). destruct (Hall i Hi) as [_ Hwi].
+    change (gpf_run st (s :: h)) with (gpf_run (gpf_step st s) h).
+    rewrite (IH (gpf_step st s) i L1 L2 HF' Hv Hi). cbn [incr_sum].
+    rewrite Hwi. rewrite gpf_weight_split.
+    assert (E : plw (nth i (fs_pred (gpf_step st s)) (dparticle O n)) = plw (nth i (fs_corr st) (dparticle O n))).
+    { rewrite <- !(map_nth plw). now rewrite Hw. }
+    rewrite E, Rplus_assoc. reflexivity.
+Qed.
+
 End Step.
